@@ -133,6 +133,13 @@ impl FileSystem {
                     Component::Normal(name) => name,
                     Component::RootDir | Component::CurDir => continue,
                     Component::ParentDir => {
+                        // `..` is an entry of a directory, too.
+                        if !matches!(
+                            nodes.last().unwrap().borrow().body,
+                            FileBody::Directory { .. }
+                        ) {
+                            return Err(Errno::ENOTDIR);
+                        }
                         if nodes.len() > 1 {
                             nodes.pop();
                         }
@@ -156,7 +163,10 @@ impl FileSystem {
             }
 
             let node = nodes.pop().unwrap();
-            if path.as_unix_str().as_bytes().ends_with(b"/")
+            // `Path::components` omits a trailing `.` component as well as a
+            // trailing slash, both of which require a directory.
+            let bytes = path.as_unix_str().as_bytes();
+            if (bytes.ends_with(b"/") || bytes.ends_with(b"/."))
                 && !matches!(&node.borrow().body, FileBody::Directory { .. })
             {
                 return Err(Errno::ENOTDIR);
